@@ -54,6 +54,10 @@ NOT_APPLICABLE = {}
 
 # checks registered by their own module: lib/checks/cNN.py may define
 #   MANIFEST = dict(cat=<level category>, ref=<DESIGN.md section>, tech=<technique>, text=<level text>, note=<level note>)
+# modules accepted by the coordinator (a module under development is not registered until it is listed here)
+ACCEPTED = ["C07", "C08", "C42"]
+
+
 def _module_checks():
     import importlib, sys, glob
     sys.path.insert(0, os.path.join(ROOT, "lib"))
@@ -61,7 +65,7 @@ def _module_checks():
         pid = os.path.basename(f)[:-3].upper()
         mod = importlib.import_module("checks." + pid.lower())
         m = getattr(mod, "MANIFEST", None)
-        if m and pid not in CHECKS:
+        if m and pid not in CHECKS and pid in ACCEPTED:
             assert m["cat"] == mod.LEVEL, (pid, "MANIFEST cat differs from LEVEL")
             CHECKS[pid] = m
         na = getattr(mod, "NOT_APPLICABLE", None)
